@@ -43,8 +43,13 @@ def run(ctx, selftest=False):
         if not any(e["ev"] == "Orbit" for e in t["events"]):
             ctx.fail("C04.RowCouldNotBeProduced", t)
     ctx.sample(traces[0]); ctx.sample(traces[-1])
-    verdicts = ctx.validate("GaussTrace", traces, timeout=3000)
-    ctx.judge(traces, verdicts, families=FAMILIES)
+    otr = [gd.oracle_trace(c) for c in cases[:: (4 if quick else 1)]]
+    ctx.notes["oracle_validated_on_lattice_configurations"] = len(otr)
+    # off the lattice: marginal(theta) = ln p(y | theta, x) + ln p(x | theta) - ln N(x | a, A) with the unmarginalised likelihood of the
+    # row from the real code (get_orbit) and prior / posterior densities of x from the transcribed specification
+    gd.offlattice(ctx, "C04", 80 if quick else 1500, [("dev_bayes", "OffLatticeBayesIdentity")])
+    verdicts = ctx.validate("GaussTrace", traces + otr, timeout=3000)
+    ctx.judge(traces + otr, verdicts, families=FAMILIES + ("H.",))
     if selftest or not quick:
         import copy
         muts = []
